@@ -84,7 +84,7 @@ def ob_mul_phase(ctx, arch):
     A = core.limb64('a'); B = core.limb64('b')
     ta = core.obj_words('a', [A], 8); tb = core.obj_words('b', [B], 8)
     it = interp(w); it.call('@_ZN6gl64_t3mulERKS_', [Ptr(ta, 0), Ptr(tb, 0)])
-    if 't' not in cap: return viol('%s/mul/no-reduce' % arch, 'mul does not call reduce(uint32_t*)', replay=dict(event='no reduce'))
+    if 't' not in cap: return inconc('mul(const gl64_t&) does not hand its product to reduce(uint32_t*): the two-phase argument does not apply to this code (the products are then judged by the end-to-end obligations)')
     lo, hi = cap['t']
     res = smt.prove(lambda tr: tr.val(tobv(hi, 64)) * 2**64 + tr.val(tobv(lo, 64)) == tr.prod(A, B)[0], timeout=240 if ctx.thorough else 120, variants=NIA)
     if res.status == 'unsat': return ok('temp[0..3] = a·b exactly for all 2^128 operand pairs; %s' % res.variant, sample=dict(arch=arch, op='mul phase'))
@@ -129,6 +129,11 @@ def ob_mul_compose(ctx, arch, name):
     B2 = A if unary else B
     pre = []    # "either multiplication variant can handle partially reduced inputs": no canonicity assumption on the multiplicands
     res = smt.prove(lambda tr: z3.And((tr.val(tobv(r, 64)) - tr.prod(A, B2)[0]) % P == 0, tr.val(tobv(r, 64)) < P), assumptions=asm + list(it.pc), timeout=240 if ctx.thorough else 120, variants=NIA)
+    if res.status == 'unknown':
+        # the routine does not go through mul(const gl64_t&) (e.g. a dedicated squaring): summarise reduce(uint32_t*) instead, by the contract that
+        # ob_reduce128 proves in this run (val ≡ temp mod p) plus canonicity of its result if that can be proved here
+        r2 = compose_over_reduce(ctx, arch, name, unary)
+        if r2 is not None: return r2
     if res.status == 'unsat': return ok('canonical a·b for all 64-bit (also partially reduced) multiplicands, over the contract of mul(const gl64_t&) (= mul phase ∘ reduce(uint32_t*)); %s' % res.variant, sample=dict(arch=arch, op=name))
     if res.status == 'sat':
         a = core.limbval(res.model, 'a'); b = a if unary else core.limbval(res.model, 'b')
@@ -136,6 +141,35 @@ def ob_mul_compose(ctx, arch, name):
         if got != a * b % P: return viol('%s/%s' % (arch, name), '%s %s(%#x, %#x) = %#x, expected %#x (concrete re-execution in the interpreter)' % (arch, name, a, b, got, a * b % P), replay=dict(arch=arch, name=name, vals=[a] if unary else [a, b]))
         return inconc('the reduce contract admits a spurious model; concrete re-execution agrees')
     return inconc('%s %s: %s' % (arch, name, res.info))
+
+def reduce_canonical(ctx, arch):
+    w = world(ctx, arch); t = [z3.BitVec('t%d' % i, 32) for i in range(4)]
+    tmp = Obj(16, 'temp', 8); tmp.cells[0] = z3.Concat(t[1], t[0]); tmp.cells[1] = z3.Concat(t[3], t[2]); this = Obj(8, 'this', 8)
+    interp(w).call('@_ZN6gl64_t6reduceEPj', [Ptr(this, 0), Ptr(tmp, 0)]); v = this.cells.get(0)
+    if v is None: return False
+    return smt.prove(lambda tr: tr.val(tobv(v, 64)) < P, timeout=60, variants=NIA).status == 'unsat'
+
+def compose_over_reduce(ctx, arch, name, unary):
+    canon_ok = reduce_canonical(ctx, arch)
+    for mkw in (core.limb64, core.bv64):
+        r_ = _compose_over_reduce(ctx, arch, name, unary, canon_ok, mkw)
+        if r_ is not None: return r_
+    return None
+def _compose_over_reduce(ctx, arch, name, unary, canon_ok, mkw):
+    w = world(ctx, arch); asm = []; prods = []
+    def redh(it_, a):
+        lo = tobv(a[1].obj.cells.get(a[1].off // 8), 64); hi = tobv(a[1].obj.cells.get(a[1].off // 8 + 1), 64)
+        o = z3.BitVec('redout%d' % len(asm), 64); w.store(a[0], I(64), o)
+        asm.append(lambda tr: z3.And((tr.val(o) - (tr.val(hi) * 2**64 + tr.val(lo))) % P == 0, (tr.val(o) < P) if canon_ok else z3.BoolVal(True))); return None
+    w.hooks['@_ZN6gl64_t6reduceEPj'] = redh
+    A = mkw('a'); B = mkw('b'); it = interp(w)
+    try: r = it.call('@' + name, [A] if unary else [A, B])
+    except Unsupported as e: return None
+    if not asm: return None
+    B2 = A if unary else B
+    res = smt.prove(lambda tr: z3.And((tr.val(tobv(r, 64)) - tr.prod(A, B2)[0]) % P == 0, tr.val(tobv(r, 64)) < P), assumptions=asm + list(it.pc), timeout=240 if ctx.thorough else 120, variants=NIA)
+    if res.status == 'unsat': return ok('canonical a·b for all 64-bit multiplicands, over the contract of reduce(uint32_t*) (val ≡ temp mod p%s; proved in this run) with the 128-bit product computed by the routine itself; %s' % (', val canonical' if canon_ok else '', res.variant), sample=dict(arch=arch, op=name, mode='over reduce'))
+    return None
 
 def ob_mul32(ctx, arch):
     w = world(ctx, arch); A = core.limb64('a'); b = z3.BitVec('b32', 32)
